@@ -1,6 +1,7 @@
 package main
 
 import (
+	"context"
 	"encoding/json"
 	"fmt"
 	"math/rand"
@@ -10,9 +11,11 @@ import (
 	"sync/atomic"
 	"time"
 
+	"cuelang.org/go/internal/mod/modrequirements"
 	"cuelang.org/go/internal/mod/mvs"
 	"cuelang.org/go/internal/mod/semver"
 	"cuelang.org/go/internal/verifhook"
+	"cuelang.org/go/mod/modfile"
 	"cuelang.org/go/mod/module"
 	"cuelang.org/go/verifharness/kit"
 	"cuelang.org/go/verifharness/tlaval"
@@ -173,9 +176,10 @@ func (n mvsNode) version() module.Version {
 }
 
 type mvsGraph struct {
-	M, V int
-	Req  map[mvsNode][]mvsNode
-	Want []int // per module (index m-1): rank (V+1 for the target's own version) or -1
+	M, V  int
+	Req   map[mvsNode][]mvsNode
+	Want  []int // per module (index m-1): rank (V+1 for the target's own version) or -1
+	Want1 []int // the same for the pruned graph the module loader reads (roots and their requirements)
 }
 
 func (g *mvsGraph) key() string {
@@ -251,6 +255,84 @@ func (g *mvsGraph) wantList() map[string]string {
 	return out
 }
 
+// mvsModFiles serves the graph's requirement lists as module files.
+type mvsModFiles struct {
+	g     *mvsGraph
+	delay func()
+}
+
+func (m *mvsModFiles) ModFile(ctx context.Context, mv module.Version) (*modfile.File, error) {
+	if m.delay != nil {
+		m.delay()
+	}
+	var b strings.Builder
+	fmt.Fprintf(&b, "module: %q\nlanguage: version: \"v0.9.0\"\n", mv.Path())
+	for n, l := range m.g.Req {
+		if n.version() != mv || len(l) == 0 {
+			continue
+		}
+		// a module file names one version per module: the list's maximum, as `cue mod` writes it
+		best := map[int]int{}
+		for _, x := range l {
+			if x.v > best[x.m] {
+				best[x.m] = x.v
+			}
+		}
+		b.WriteString("deps: {\n")
+		for mm, vv := range best {
+			fmt.Fprintf(&b, "\t%q: v: %q\n", fmt.Sprintf("m%d.test@v0", mm), mvsVersions[vv])
+		}
+		b.WriteString("}\n")
+	}
+	return modfile.Parse([]byte(b.String()), "module.cue")
+}
+
+// mvsCheckLoader runs the module loader's graph reader (modrequirements) with the main module's
+// requirement list as roots - several versions of one module may be listed - and compares its
+// build list with the pruned selection of Mvs.tla.
+func mvsCheckLoader(r *kit.Run, g *mvsGraph, rng *rand.Rand, latency time.Duration) {
+	var roots []module.Version
+	for _, x := range g.Req[mvsNode{1, 0}] {
+		roots = append(roots, x.version())
+	}
+	module.Sort(roots)
+	// a module file cannot list two versions of one module: the pruned expectation uses the maximum per list
+	reg := &mvsModFiles{g: g}
+	if latency > 0 {
+		var mu sync.Mutex
+		reg.delay = func() {
+			mu.Lock()
+			d := time.Duration(rng.Int63n(int64(latency)))
+			mu.Unlock()
+			time.Sleep(d)
+		}
+	}
+	rs := modrequirements.NewRequirements("m1.test@v0", reg, roots, nil)
+	mg, err := rs.Graph(context.Background())
+	if err != nil {
+		r.Violation("loader graph "+g.key(), "modrequirements.Graph: "+err.Error(), map[string]any{"graph": g.key()})
+		return
+	}
+	got := map[string]string{}
+	for _, m := range mg.BuildList() {
+		got[m.Path()] = m.Version()
+	}
+	want := map[string]string{}
+	for m := 1; m <= g.M; m++ {
+		w := g.Want1[m-1]
+		switch {
+		case w < 0:
+		case w == g.V+1:
+			want[fmt.Sprintf("m%d.test@v0", m)] = ""
+		default:
+			want[fmt.Sprintf("m%d.test@v0", m)] = mvsVersions[w]
+		}
+	}
+	if fmt.Sprint(got) != fmt.Sprint(want) {
+		r.Violation("loader build list "+g.key(), fmt.Sprintf("the module loader's pruned graph selects %v for roots %v, the maximum over the roots and their requirements is %v", got, roots, want), map[string]any{"graph": g.key(), "roots": fmt.Sprint(roots), "got": got, "want": want})
+	}
+}
+
 // mvsCheckGraph runs the real BuildList (and Req) and compares with Want.
 func mvsCheckGraph(r *kit.Run, g *mvsGraph, rng *rand.Rand, latency time.Duration) {
 	target := mvsNode{1, 0}.version()
@@ -320,7 +402,7 @@ func mvsGraphsFromTLC(r *kit.Run, cfg string, m, v int, seed int64, sample bool)
 	var mu sync.Mutex
 	var out []*mvsGraph
 	seen := map[string]bool{}
-	_, err = kit.ForEachState(res.DumpPath, []string{"req", "want", "todo", "done"}, 8, func(_ int, st tlaval.State) {
+	_, err = kit.ForEachState(res.DumpPath, []string{"req", "want", "want1", "todo", "done"}, 8, func(_ int, st tlaval.State) {
 		// a complete graph: exhaustive mode = terminal states; sample mode = initial states
 		todo := tlaval.AsSet(st["todo"])
 		done := tlaval.AsSet(st["done"])
@@ -348,6 +430,7 @@ func mvsGraphsFromTLC(r *kit.Run, cfg string, m, v int, seed int64, sample bool)
 			}
 		}
 		g.Want = tlaval.IntSeq(st["want"])
+		g.Want1 = tlaval.IntSeq(st["want1"])
 		k := g.key()
 		mu.Lock()
 		if !seen[k] {
@@ -522,6 +605,9 @@ func checkC14(r *kit.Run) {
 			lat = 200 * time.Microsecond
 		}
 		mvsCheckGraph(r, g, rngs[w], lat)
+		if g.Want1 != nil {
+			mvsCheckLoader(r, g, rngs[w], lat)
+		}
 		sel := 0
 		for _, x := range g.Want {
 			if x >= 0 {
